@@ -22,6 +22,13 @@ let model op c args =
       (match decode_bucket_keys c l with
        | Some out -> "ok " ^ String.concat "," (List.map hex_of_bytes out)
        | None -> "decerr")
+  | "dsc" ->
+      let regs = if List.nth args 0 = "" then [] else
+        List.map (fun r -> match String.split_on_char ':' r with
+                           | [s; e] -> (bytes_of_hex s, bytes_of_hex e) | _ -> failwith "dsc") (String.split_on_char ',' (List.nth args 0)) in
+      (match decode_scan c regs with
+       | Some out -> String.concat ";" (List.map (fun (s, e) -> "ok " ^ hex_of_bytes s ^ " " ^ hex_of_bytes e) out)
+       | None -> "decerr")
   | "pki" -> (match parse_keyspace_id (a 0) with Some id -> "ok " ^ hex_of_n id | None -> "err")
   | _ -> "unknown-op"
 
